@@ -491,6 +491,96 @@ func libGoroutines() []string {
 
 var currentCase atomic.Value
 
+// overlapCase (C13): two connections on one Acceptor; one of them ends (the peer hangs up or its handler is stopped)
+// while the other stays up. The call serving the ended connection must return — observed through the handler's
+// CloseErrorChan, the last thing Acceptor.serve does — without waiting for the other client to leave.
+type releaseHandler struct {
+	*simplefixgo.DefaultHandler
+	released chan struct{}
+	once     sync.Once
+}
+
+func (h *releaseHandler) CloseErrorChan() {
+	h.DefaultHandler.CloseErrorChan()
+	h.once.Do(func() { close(h.released) })
+}
+
+type releaseFactory struct {
+	buf int
+	ch  chan *releaseHandler
+}
+
+func (f *releaseFactory) MakeHandler(ctx context.Context) simplefixgo.AcceptorHandler {
+	h := &releaseHandler{DefaultHandler: simplefixgo.NewAcceptorHandler(ctx, "35", f.buf), released: make(chan struct{})}
+	f.ch <- h
+	return h
+}
+
+func overlapCase(r *rand.Rand, o *hout.Out, idx int) {
+	buf := []int{0, 1, 10}[idx%3]
+	cause := []string{"peer-close", "handler-stop"}[(idx/3)%2]
+	endFirst := (idx/6)%2 == 0 // which of the two connections ends
+	currentCase.Store(fmt.Sprintf("overlap cause=%s buffer=%d end-first=%v", cause, buf, endFirst))
+	lst := newPipeListener()
+	f := &releaseFactory{buf: buf, ch: make(chan *releaseHandler, 4)}
+	acc := simplefixgo.NewAcceptor(lst, f, 200*time.Millisecond, func(simplefixgo.AcceptorHandler) {})
+	go func() { _ = acc.ListenAndServe() }()
+	var peers [2]net.Conn
+	var hs [2]*releaseHandler
+	for i := 0; i < 2; i++ {
+		a, b := net.Pipe()
+		peers[i] = b
+		lst.conns <- a
+		select {
+		case hs[i] = <-f.ch:
+		case <-time.After(3 * time.Second):
+			o.Fail("C13", "connection-not-served", fmt.Sprintf("overlap: connection %d got no handler within 3 s", i))
+			acc.Close()
+			return
+		}
+		go func(c net.Conn) { // the peer reads whatever comes
+			tmp := make([]byte, 4096)
+			for {
+				if _, err := c.Read(tmp); err != nil {
+					return
+				}
+			}
+		}(b)
+	}
+	time.Sleep(time.Duration(r.Intn(3000)) * time.Microsecond)
+	k := 1
+	if endFirst {
+		k = 0
+	}
+	if cause == "peer-close" {
+		peers[k].Close()
+	} else {
+		hs[k].Stop()
+	}
+	desc := fmt.Sprintf("two connections on one acceptor, cause=%s on the %s one, buffer=%d", cause, []string{"second", "first"}[map[bool]int{false: 0, true: 1}[endFirst]], buf)
+	select {
+	case <-hs[k].released:
+	case <-time.After(3 * time.Second):
+		o.Fail("C13", "goroutines-left", fmt.Sprintf("%s: the call serving the ended connection had not returned 3 s later, while the other client was still connected; library goroutines: %v", desc, libGoroutines()))
+	}
+	select {
+	case <-hs[1-k].released:
+		o.Fail("C13", "other-connection-ended-too", desc+": the connection that nobody ended was wound up as well")
+	default:
+	}
+	o.Nontrivial("C13", desc)
+	o.Count("C13.overlap cause=" + cause)
+	// wind everything down
+	peers[1-k].Close()
+	peers[k].Close()
+	acc.Close()
+	lst.Close()
+	select {
+	case <-hs[1-k].released:
+	case <-time.After(3 * time.Second):
+	}
+}
+
 func faultCase(r *rand.Rand, o *hout.Out, idx int) {
 	buf := []int{0, 1, 10}[r.Intn(3)]
 	role := r.Intn(2) // 0 initiator, 1 acceptor
@@ -761,7 +851,13 @@ func main() {
 			// a case that does not come back is itself a finding (something of the library blocks the caller for good):
 			// report it with the goroutines that are stuck and stop, instead of hanging the check
 			done := make(chan struct{})
-			go func() { faultCase(r, o, i); close(done) }()
+			go func() {
+				faultCase(r, o, i)
+				if i < 12 { // every (buffer, cause, which) combination of the overlap scenario in every run
+					overlapCase(r, o, i)
+				}
+				close(done)
+			}()
 			select {
 			case <-done:
 			case <-time.After(45 * time.Second):
